@@ -1291,15 +1291,64 @@ of its rows, a subset of its columns; without terms, all of it -/
 theorem view_restricts (t : Table) (terms : List Term) (v : View) (h : viewOf t terms = some v) :
     v.rows.Sublist (loadRows t []) ∧ (∀ c ∈ v.cols, c ∈ t.cols) ∧
       viewOf t [] = some { rows := loadRows t [], cols := t.cols } := by
-  refine ⟨?_, ?_, rfl⟩
+  refine ⟨?_, ?_, ?_⟩
   · unfold viewOf at h
     split at h
     · cases h
-    · cases h; exact filter_subset t terms
+    · split at h
+      · cases h
+      · cases h; exact filter_subset t terms
   · unfold viewOf at h
     split at h
     · cases h
-    · rename_i cf _; cases h; exact (filter_cols_subset t cf).1
+    · rename_i cf _
+      split at h
+      · cases h
+      · cases h; exact (filter_cols_subset t cf).1
+  · simp [viewOf, drawColumns, loadRaises, loadCols]
+
+/- Full statement (false of the code as it is, see `draw_filter_series_raises`; recorded finding F29
+`draw-filter-series-name`):
+     ∀ t terms, drawColumns terms ≠ none → (viewOf t terms).isSome
+   – every stored table can be loaded through every artifact that can be constructed. What is missing: for a
+   stored Series `pandas.read_hdf(columns=…)` selects by position in what is left of the draw filter's column
+   list, and raises when the Series' name is not in it. -/
+/-- a stored table can be loaded through every constructible artifact – unless it is a Series and the
+artifact has a draw filter -/
+theorem filtered_load_succeeds_partial (t : Table) (terms : List Term) (cf : Option (List String))
+    (hc : drawColumns terms = some cf) (h : t.isSeries = false ∨ cf = none) : (viewOf t terms).isSome = true := by
+  have : loadRaises t cf = false := by
+    rcases h with h | h
+    · cases cf <;> simp [loadRaises, h]
+    · simp [loadRaises, h]
+  simp [viewOf, hc, this]
+
+/-- F29: a Series named `rate` under the draw filter `draw == 1` (columns `draw_1`, `value`) cannot be loaded;
+a frame with the same column can (it comes back without columns), and so can a Series named `value` -/
+theorem draw_filter_series_raises :
+    viewOf { qcols := ["index"], rows := [[0], [8]], cols := ["rate"], isSeries := true } [.draws [1]] = none ∧
+    (viewOf { qcols := ["index"], rows := [[0], [8]], cols := ["rate"] } [.draws [1]]).isSome = true ∧
+    (viewOf { qcols := ["index"], rows := [[0], [8]], cols := ["value"], isSeries := true } [.draws [1]]).isSome = true := by
+  decide
+
+/-- a key with a `/` in it is malformed (F27): refused in every state, whatever the value -/
+theorem slash_key_refused (a : Art) (d : Option Data) :
+    write a ["p/q", "r"] d = (a, .rejected) ∧ wellFormed ["a", "b", "c/d"] = false ∧ wellFormed ["a b", "ü!"] = true := by
+  refine ⟨(rejected_unchanged a ["p/q", "r"]).2.2.1 d (by decide), by decide, by decide⟩
+
+/-- reading through any artifact object – the acting one or another live one with a stale key list and
+cache – never touches the file -/
+theorem reads_do_not_touch_file (a : Art) (k : Key) :
+    (step a (.load k)).1.file = a.file ∧ (step a (.load k)).1.groups = a.groups ∧
+    (step a .clearCache).1.file = a.file ∧ (step a .clearCache).1.groups = a.groups := by
+  refine ⟨?_, load_groups a k, rfl, rfl⟩
+  simp only [step]
+  unfold load
+  split
+  · rfl
+  · split
+    · rfl
+    · split <;> rfl
 
 /-! ### the recorded finding (F12) and the limits of atomicity, as witnesses on the model of the code as it is -/
 
